@@ -211,12 +211,18 @@ func (p List) Struct(i int) Struct {
 	if !ok {
 		return Struct{}
 	}
+	depthLimit := p.depthLimit
+	if depthLimit > 0 {
+		// A list that is already at the depth limit must not hand out
+		// elements with a wrapped-around (effectively unlimited) budget.
+		depthLimit--
+	}
 	return Struct{
 		seg:        p.seg,
 		off:        addr,
 		size:       p.size,
 		flags:      isListMember,
-		depthLimit: p.depthLimit - 1,
+		depthLimit: depthLimit,
 	}
 }
 
